@@ -31,6 +31,7 @@ POOL = {
     "w": [("I", 0), ("x", 0), (r"b^\dagger b", 0), ("x x", 0)],
     "v": [("I", 0), ("x", 0), (r"b^\dagger b", 0), (r"b^\dagger", 0)],
     "u": [("I", 0), ("x", 0), ("x^2", 0)],          # shifted-origin oscillator
+    "W": [("I", 0), ("x", 0), ("p^2", 0), ("x^2", 0)],   # oscillators of the same class and size whose parameters differ from site to site
     "m": [("I", 0), ("m01", 0), ("m10", 0), ("m11", 0)],   # two-dof multi-electron site
 }
 
@@ -41,6 +42,9 @@ def basis_for(kind, i):
         return ba.BasisSHO("v%d" % i, 1.3, 3, x0=0.7)
     if kind == "m":
         return ba.BasisMultiElectron(["m%da" % i, "m%db" % i], [0, 0])
+    if kind == "W":
+        # frequencies 1/2, 2, 8: every matrix entry is a dyadic rational, so that products of entries of different sites are exact in floats
+        return ba.BasisSHO("v%d" % i, [0.5, 2.0, 8.0][i % 3], 2, x0=0.25 * i)
     return lib.site_basis(kind, i)
 
 
@@ -72,7 +76,7 @@ def local_matrix(kind, i, k):
         return np.eye(b.nbas)
     if sym == r"a^\dagger a":
         return np.diag([0.0, 1.0])
-    if kind in ("w", "v", "u"):
+    if kind in ("w", "v", "u", "W"):
         # oscillator product symbols denote the exact operator (documented exception at the top level): take the
         # basis' own matrix, which C16 checks against the written-order product away from the truncation edge
         return np.asarray(b.op_mat(sym), dtype=float)
